@@ -1470,7 +1470,8 @@ def configs(tier):
         cfgs.append(dict(o, kind='linesearch'))
         for sv in SMOOTH:
             cfgs.append(dict(o, kind='smooth', solver=sv, horizon='short'))
-        cfgs.append(dict(o, kind='smooth', solver='steepest_descent', horizon='long'))
+        if thorough or o['obj'] != 'lsq':
+            cfgs.append(dict(o, kind='smooth', solver='steepest_descent', horizon='long'))
     # ---- (c) power method
     sym2 = [list(t) for t in itertools.product(MV, repeat=3) if any(t)]
     for wk in ('plain', 'w2', 'wa'):
@@ -1491,8 +1492,12 @@ def configs(tier):
                 for ill in (0, 1):
                     cfgs.append({'kind': 'power', 'pool': 'rect', 'shape': shape, 'mat': t,
                                  'ill': ill, 'w': wk, 'arm': 'normal', 'deep': int(thorough)})
-    # ---- (b) non-smooth solvers
+    # ---- (b) non-smooth solvers (per family simplest first; the families are then interleaved
+    # round-robin so that the expensive members are spread over the work shards)
+    per_fam = []
     for fam, F in FAMS.items():
+        lst = []
+        per_fam.append(lst)
         for xi, X in enumerate(F['X']):
             if not thorough and xi > 0 and fam not in ('fused',):
                 continue
@@ -1501,6 +1506,8 @@ def configs(tier):
             if not thorough:
                 # quick: the palindromic patterns (3 for n=2, 9 for n=3,4)
                 pts = [t for t in pts if t == t[::-1]]
+                if F.get('zero_dual_only'):
+                    pts = pts[:4]
             elif n == 4 and fam != 'rof1d':
                 pts = [t for t in pts if t[3] == t[0]]       # 27 of 81 (all 81 for rof1d)
             if F.get('zero_dual_only'):
@@ -1508,7 +1515,7 @@ def configs(tier):
             elif thorough:
                 pats = [(0, 0), (1, 0), ('z', 0), (0, 1)]
             else:
-                pats = [(0, 0), ('z', 0), (1, 0), (0, 1)]
+                pats = [(0, 0), ('z', 0), (0, 1)]
             for pat, deg in pats:
                 for xs in pts:
                     for sv in F['solvers']:
@@ -1516,7 +1523,9 @@ def configs(tier):
                              'solver': sv, 'tier': tier, 'K': K_LIVE}
                         if deg:
                             c['deg'] = 1
-                        cfgs.append(c)
+                        lst.append(c)
+    for grp in itertools.zip_longest(*per_fam):
+        cfgs.extend(c for c in grp if c is not None)
     return cfgs
 
 
